@@ -66,6 +66,15 @@ func U8(name string) uint8   { return uint8(bigOf(name).Uint64()) }
 func U32(name string) uint32 { return uint32(bigOf(name).Uint64()) }
 func Bool(name string) bool  { return cur.Inputs[name] == "true" }
 
+// Bytes returns n arbitrary bytes (inputs name.0 … name.n-1).
+func Bytes(name string, n int) []byte {
+	b := make([]byte, n)
+	for i := range b {
+		b[i] = uint8(bigOf(fmt.Sprintf("%s.%d", name, i)).Uint64())
+	}
+	return b
+}
+
 // BigInt returns a math.Int input in [lo, 2^hiBits].
 func BigInt(name string, lo int64, hiBits int) sdkmath.Int {
 	return sdkmath.NewIntFromBigInt(bigOf(name))
